@@ -57,6 +57,14 @@ func protoCallback(callback *callback.Callback) *pb.Callback {
 }
 
 func protoRecv(recv *pb.Recv) ([]byte, error) {
+	if recv == nil {
+		return nil, status.Error(codes.InvalidArgument, "The field recv is required.")
+	}
+
+	if p, ok := recv.Recv.(*pb.Recv_Physical); ok && (p.Physical == nil || (len(p.Physical.Data) > 0 && !json.Valid(p.Physical.Data))) {
+		return nil, status.Error(codes.InvalidArgument, "The field recv.physical.data must be valid json.")
+	}
+
 	switch r := recv.Recv.(type) {
 	case *pb.Recv_Logical:
 		return json.Marshal(&r.Logical)
